@@ -6,7 +6,15 @@ what is missing), so every generated program is well-typed by construction."""
 ADDRS = ['tz1VSUr8wwNhLAzempoch5d6hLRiTh8Cjcjb', 'KT1BEqzn5Wx8uJrZNvuS9DVHmLvG9td3fDLi', 'tz3WMqdzXqRWXwyvj5Hp2H7QEepaUuS7vd9K',
          'tz2TSvNTh2epDMhZHrw73nV9piBX7kLZ9K9m', 'KT18amZmM5W7qDWVt2pH6uj7sCEd3kbzLrHT']
 CHAINS = ['NetXdQprcVkpaWU', 'NetXynUjJNZm7wi', 'NetXSgo1ZT2DRUG']
-SIMPLE = [('unit',), ('bool',), ('int',), ('nat',), ('mutez',), ('timestamp',), ('string',), ('bytes',), ('address',), ('chain_id',)]
+# public keys of the three curves and their hashes (HASH_KEY must map KEYS[i] to KEY_HASHES[i]); the last hashes have no key here
+KEYS = ['edpktmbdMY3CZ5NsojummD3y23UVtPDq1aAXdxeiFqtqNqpwBF132W', 'edpkubJb1vpdePjHQJk7fXu84P3S3G49EA6JgPKMCBqCuRDw6tHQqp',
+        'sppk7d8JtF7QDQoXAN5JQiJrZhqEJ8a2wNscNZKBLX8HemhEE6wuxgk', 'sppk7b9JHPD8Pxa9dkNHqeDgGtzXAPkPJZwpym1hp86Bz7BFRFiR7Tn',
+        'p2pk65F8uLw4Qt6f1gJqgs4AFV4DCqyDPsT8aGD6Em7BFvwSRLLvWgV', 'p2pk66qUgMdo3pGFVogQT5YeEfxfhH3ky3oPy2fAimzX3XKGRU7C6yD']
+KEY_HASHES = ['tz1bsdUtmpeQuTPeNiVksrvuyLzrjHU6LLXG', 'tz1cWk3eUkCuPAUrzFy9dJi5BrYowN9UT3jN', 'tz2LFUcTeBvgqeo1R9M9ZXu591KyDjPhwsJA',
+              'tz2M2G5a2G8Qz8y4KpbWaiegjBXxr4LhsRwd', 'tz3SU9RJf9oezj1gurJa8zMyYVPk4wfEumsd', 'tz3h2Y9cfvbbFNjLpmsvsj948vm37WiV2vbQ',
+              'tz1VSUr8wwNhLAzempoch5d6hLRiTh8Cjcjb', 'tz3WMqdzXqRWXwyvj5Hp2H7QEepaUuS7vd9K']
+SIMPLE = [('unit',), ('bool',), ('int',), ('nat',), ('mutez',), ('timestamp',), ('string',), ('bytes',), ('address',), ('chain_id',),
+          ('key_hash',), ('key',)]
 HASH_PRIMS = ['BLAKE2B', 'SHA256', 'SHA512', 'KECCAK', 'SHA3']
 SET_ELT = [('int',), ('nat',), ('string',), ('bytes',), ('bool',), ('mutez',), ('timestamp',)]
 COMPARABLE = [('int',), ('nat',), ('string',), ('bytes',), ('bool',), ('mutez',), ('timestamp',)]
@@ -143,6 +151,10 @@ class Gen:
             return {'string': r.choice(ADDRS)}
         if p == 'chain_id':
             return {'string': r.choice(CHAINS)}
+        if p == 'key_hash':
+            return {'string': r.choice(KEY_HASHES)}
+        if p == 'key':
+            return {'string': r.choice(KEYS)}
         if p == 'option':
             if r.random() < 0.35:
                 return {'prim': 'None'}
@@ -214,6 +226,7 @@ class Gen:
             'unit': {'prim': 'Unit'}, 'bool': {'prim': 'False'}, 'int': {'int': '0'}, 'nat': {'int': '0'}, 'mutez': {'int': '0'},
             'timestamp': {'int': '0'}, 'string': {'string': ''}, 'bytes': {'bytes': ''}, 'address': {'string': ADDRS[0]},
             'chain_id': {'string': CHAINS[0]}, 'option': {'prim': 'None'}, 'list': [], 'map': [], 'set': [],
+            'key_hash': {'string': KEY_HASHES[0]}, 'key': {'string': KEYS[0]},
         }
         if p in table:
             return table[p]
@@ -293,6 +306,10 @@ class Gen:
         add(3, 'ARITH', lambda: self._arith_idiom(st))
         add(4, 'COLL', lambda: self._coll_idiom(st, depth))
         add(0.5, 'EMPTY_SET', lambda: self._empty_set(st))
+        add(1.6, 'CONV', lambda: self._conv_idiom(st))
+        add(0.9, 'KEYS', lambda: self._key_idiom(st))
+        if depth > 0:
+            add(0.8, 'NEVER', lambda: self._never_idiom(st, depth))
         if depth > 0:
             add(1, 'LAMBDA', lambda: self._lambda(st, depth))
         res = None
@@ -330,6 +347,15 @@ class Gen:
                 add(3, 'EQ..', lambda: ([{'prim': op}], [('bool',)] + st[1:]))
             if top[0] == 'nat':
                 add(2, 'INT', lambda: ([{'prim': 'INT'}], [('int',)] + st[1:]))
+            if top[0] in ('int', 'nat'):
+                add(2, 'BYTES', lambda: ([{'prim': 'BYTES'}], [('bytes',)] + st[1:]))
+            if top[0] == 'bytes':
+                cv = r.choice(['INT', 'NAT'])
+                add(3, cv, lambda: ([{'prim': cv}], [('int',) if cv == 'INT' else ('nat',)] + st[1:]))
+            if top[0] == 'key':
+                add(6, 'HASH_KEY', lambda: ([{'prim': 'HASH_KEY'}], [('key_hash',)] + st[1:]))
+            if top[0] == 'key_hash':
+                add(6, 'VOTING_POWER', lambda: ([{'prim': 'VOTING_POWER'}], [('nat',)] + st[1:]))
             if top[0] == 'option' and depth > 0:
                 add(4, 'IF_NONE', lambda: self._if('IF_NONE', st[1:], [top[1]] + st[1:], depth))
             if top[0] == 'or' and depth > 0:
@@ -609,6 +635,79 @@ class Gen:
             self.note('GET')
             return code + arg + [P('UPDATE'), P('DUP'), pk, P('GET')], [('option', vt), ct] + st
         return code + arg + [P('UPDATE')], new
+
+    # ---- extension 2, phase A ------------------------------------------------------------------------------------
+    CONV_INTS = [0, 1, -1, 127, 128, -127, -128, -129, 255, 256, -255, -256, -257, 32767, 32768, -32768, -32769, 2**63 - 1, 2**63,
+                 -2**63, -2**63 - 1, 2**64, 2**127, -2**127, -2**127 - 1, 2**200 + 5, -2**200]
+    CONV_BYTES = ['', '00', '0000', '01', '7f', '80', 'ff', '00ff', '0080', 'ff7f', 'ff80', 'ffff', '007f', '0100', '8000', '7fff',
+                  '000001', 'ffffff80', '0000000000000000000001', '80' + '00' * 15, 'ff' * 17, '7f' + 'ff' * 31]
+
+    def _conv_idiom(self, st):
+        """int / nat <-> bytes at the edges: zero and the empty string, the sign-byte boundaries (127 / 128 / -128 / -129 …),
+        leading 0x00 / 0xff bytes, long values; also the round trips BYTES ; INT and BYTES ; NAT"""
+        r = self.rng
+        P = lambda prim: {'prim': prim}
+        kind = r.choice(['BYTES int', 'BYTES int', 'BYTES nat', 'INT', 'INT', 'NAT', 'BYTES;INT', 'BYTES;NAT', 'INT;BYTES', 'NAT;BYTES'])
+        self.shape('conv ' + kind)
+        if kind.startswith('BYTES') or kind in ('BYTES;INT', 'BYTES;NAT'):
+            nat = kind in ('BYTES nat', 'BYTES;NAT')
+            v = r.choice(self.CONV_INTS) if r.random() < 0.7 else self.gen_int()
+            if nat:
+                v = abs(v)
+            self.shape('BYTES of ' + ('0' if v == 0 else ('negative' if v < 0 else 'positive')) + (' (sign-byte edge)' if abs(v) in (127, 128, 129, 255, 256, 32767, 32768, 32769, 2**63, 2**127) else ''))
+            code = [{'prim': 'PUSH', 'args': [{'prim': 'nat' if nat else 'int'}, {'int': str(v)}]}, P('BYTES')]
+            self.note('BYTES')
+            if kind == 'BYTES;INT':
+                self.note('INT')
+                return code + [P('INT')], [('int',)] + st
+            if kind == 'BYTES;NAT':
+                self.note('NAT')
+                return code + [P('NAT')], [('nat',)] + st
+            return code, [('bytes',)] + st
+        b = r.choice(self.CONV_BYTES) if r.random() < 0.75 else r.bytes_(r.choice([1, 2, 3, 8, 9, 33])).hex()
+        self.shape('bytes operand ' + ('empty' if not b else ('0x00-prefixed' if b.startswith('00') else ('0xff-prefixed' if b.startswith('ff') else ('top bit set' if int(b[:2], 16) >= 128 else 'top bit clear')))))
+        code = [{'prim': 'PUSH', 'args': [{'prim': 'bytes'}, {'bytes': b}]}]
+        first = 'INT' if kind.startswith('INT') else 'NAT'
+        self.note(first)
+        code.append(P(first))
+        if kind.endswith(';BYTES'):
+            self.note('BYTES')
+            return code + [P('BYTES')], [('bytes',)] + st
+        return code, [('int',) if first == 'INT' else ('nat',)] + st
+
+    def _key_idiom(self, st):
+        """HASH_KEY on keys of the three curves, VOTING_POWER of listed / unlisted delegates"""
+        r = self.rng
+        P = lambda prim: {'prim': prim}
+        if r.random() < 0.5:
+            k = r.choice(KEYS)
+            self.shape('HASH_KEY ' + k[:4])
+            self.note('HASH_KEY')
+            code = [{'prim': 'PUSH', 'args': [{'prim': 'key'}, {'string': k}]}, P('HASH_KEY')]
+            if r.random() < 0.5:
+                self.note('VOTING_POWER')
+                return code + [P('VOTING_POWER')], [('nat',)] + st
+            return code, [('key_hash',)] + st
+        self.note('VOTING_POWER')
+        return [{'prim': 'PUSH', 'args': [{'prim': 'key_hash'}, {'string': r.choice(KEY_HASHES)}]}, P('VOTING_POWER')], [('nat',)] + st
+
+    def _never_idiom(self, st, depth):
+        """NEVER closing a branch that cannot be taken: the `never` side of an `or`, the Some branch of an `option never`, the
+        body of an ITER over an (empty) `list never`, a lambda from `never`"""
+        r = self.rng
+        P = lambda prim, *args: {'prim': prim, 'args': list(args)} if args else {'prim': prim}
+        t = self.gen_type(1)
+        kind = r.choice(['or-left', 'or-right', 'option', 'list', 'lambda'])
+        self.shape('NEVER in ' + kind)
+        if kind == 'or-left':
+            return [P('PUSH', ty_mich(('or', ('never',), t)), P('Right', self.gen_value(t))), P('IF_LEFT', [P('NEVER')], [])], [t] + st
+        if kind == 'or-right':
+            return [P('PUSH', ty_mich(('or', t, ('never',))), P('Left', self.gen_value(t))), P('IF_LEFT', [], [P('NEVER')])], [t] + st
+        if kind == 'option':
+            return [P('NONE', ty_mich(('never',))), P('IF_NONE', [self.push(t)], [P('NEVER')])], [t] + st
+        if kind == 'list':
+            return [P('NIL', ty_mich(('never',))), P('ITER', [P('NEVER')])], st
+        return [P('LAMBDA', ty_mich(('never',)), ty_mich(t), [P('NEVER')])], [('lambda', ('never',), t)] + st
 
     def _hash_idiom(self, st):
         """hash a pushed byte string (lengths around the block sizes of the five functions), sometimes twice"""
